@@ -168,6 +168,17 @@ def run_case(spec, ctx):
         j = int(np.flatnonzero(interior)[0])
         xmin, xmax = lanes.xmin.copy(), lanes.xmax.copy()
         w = xmax[j] - xmin[j]
+        if solver == 'bisect' and rng.random() < 0.4:
+            # reversed bracket: f(xmin) > 0 > f(xmax) in one lane, or in all lanes
+            sel_ = np.array([j]) if rng.random() < 0.5 else np.flatnonzero(interior)
+            xmin[sel_], xmax[sel_] = lanes.xmax[sel_], lanes.xmin[sel_]
+            if not ((lanes.value(xmin)[sel_] > 0).all() and (lanes.value(xmax)[sel_] < 0).all()):
+                return
+            ok, res = ctx.call(optimize.bisect, lanes, xmin, xmax)
+            ctx.check(not ok, 'root.invalid-bracket-rejected', 'C18:bisect-accepts-reversed-bracket',
+                      lambda: dict(where, lanes_reversed=int(len(sel_))))
+            ctx.nontriv('reversed|%d' % spec['seed'])
+            return
         if rng.random() < 0.5:
             xmin[j], xmax[j] = lanes.root[j] + 0.25 * (xmax[j] - lanes.root[j]), xmax[j]   # f(xmin) > 0
         else:
